@@ -339,11 +339,12 @@ def gen_cases(rng, tier):
             for _ in range(2):
                 cases.append(make_case(rng, "ode", eq, {"mode": "all"}, tier))
     cases += _singular_cases(rng, tier)
+    cases += _pbatch_cases(rng, tier)
     return cases
 
 
 def shrink_candidates(case):
-    if case.get("singular"):
+    if case.get("singular") or case.get("pbatch_probe"):
         return
     T, V = n_terms(case["kind"]), n_view(case)
     a = case["assign"]
@@ -368,7 +369,7 @@ def shrink_candidates(case):
 
 def widen(rng, bad_cases):
     out = []
-    bad_cases = [c for c in bad_cases if not c.get("singular")]
+    bad_cases = [c for c in bad_cases if not c.get("singular") and not c.get("pbatch_probe")]
     for c in bad_cases[:2]:
         eq = c["eq"]
         for _ in range(2):
@@ -528,6 +529,128 @@ def _judge_singular(case, obs):
             return {"status": "violation", "clause": "unselected-pair-contributes-nonzero",
                     "where": {"spec": r["label"], "term": "total", "group": "a", "gradient": r["total"]["a"]}}
     return {"status": "ok", "clause": None, "nontrivial": nontriv}
+
+
+
+# ------------------------------------------------------------------------------------------------
+# parameter-batch flavour: routing of every term under a batch of per-sample equation parameters
+# ------------------------------------------------------------------------------------------------
+PB_SPECS = [
+    ("default", None),
+    ("all_nn", {"dyn_loss": "nn_params", "initial_condition": "nn_params", "observations": "nn_params"}),
+    ("ic_eq", {"dyn_loss": "both", "initial_condition": "eq_params", "observations": "nn_params"}),
+    ("ic_tree", {"dyn_loss": (False, True, True), "initial_condition": (False, True, False),
+                 "observations": (True, False, False)}),
+    ("obs_eq", {"dyn_loss": "nn_params", "initial_condition": "both", "observations": "eq_params"}),
+]
+
+
+def _pbatch_cases(rng, tier):
+    out = []
+    for rep in range(1 if tier == "quick" else 6):
+        out.append({"kind": "ode", "pbatch_probe": True, "c": [str(rng.choice([-2, -1, 1, 2])) for _ in range(3)],
+                    "a": str(rng.choice([1, 2, 3])), "bs": [str(x) for x in rng.sample([-2, -1, 1, 2, 3], 2)],
+                    "ts": [str(x) for x in rng.sample([1, 2, 3], 2)], "path": ["eager", "jit"][rep % 2]})
+    return out
+
+
+def _run_pbatch(case):
+    """LossODE (dynamic + initial condition + observations) on a batch that carries a parameter batch for `b`,
+    the network reading `a` and `b`: for every specification, the gradient of every returned term w.r.t. a group
+    it does not select must be exactly 0, and w.r.t. a group it selects it must be the gradient of that term under
+    the all-selecting specification (routing does not depend on the presence of a parameter batch)."""
+    import jax
+    import jax.numpy as jnp
+    import numpy as np
+    from harness import core
+    from harness.polynet import P, make_pinn
+    from jinns.parameters import Params, DerivativeKeysODE as DK
+    from jinns.loss import ODE, LossODE, LossWeightsODE
+    from jinns.data._Batchs import ODEBatch
+
+    poly = P(3, {(0, 0, 0): Fraction(case["c"][0]), (1, 0, 0): Fraction(case["c"][1]), (0, 1, 0): 1,
+                 (0, 0, 1): Fraction(case["c"][2]), (1, 0, 1): 1})
+    itf = lambda inp, p: jnp.concatenate([inp, jnp.reshape(p.eq_params["a"], (1,)), jnp.reshape(p.eq_params["b"], (1,))])
+    pinn = make_pinn([poly], "ODE", input_transform=itf)
+    params = Params(nn_params=pinn.init_params(),
+                    eq_params={"a": jnp.array(float(Fraction(case["a"]))), "b": jnp.array(1.0)})
+
+    class Dyn(ODE):
+        def equation(self, t, u, params):
+            return u(t, params) * params.eq_params["a"] + params.eq_params["b"]
+
+    ts = jnp.array([float(Fraction(x)) for x in case["ts"]])
+    batch = ODEBatch(temporal_batch=ts,
+                     param_batch_dict={"b": jnp.array([[float(Fraction(x))] for x in case["bs"]])},
+                     obs_batch_dict={"pinn_in": ts, "val": jnp.array([[1.0], [-1.0]]), "eq_params": {}})
+    terms = ["dyn_loss", "initial_condition", "observations"]
+
+    def build(dk):
+        return LossODE(u=pinn, dynamic_loss=Dyn(Tmax=1), derivative_keys=dk, initial_condition=(0.0, 1.0),
+                       loss_weights=LossWeightsODE(dyn_loss=1.0, initial_condition=1.0, observations=1.0), params=params)
+
+    def tree(m):
+        return Params(nn_params=bool(m[0]), eq_params={"a": bool(m[1]), "b": bool(m[2])})
+
+    def selects(spec, g):
+        if spec is None or spec == "nn_params":
+            return g == 0
+        if spec == "eq_params":
+            return g != 0
+        if spec == "both":
+            return True
+        return bool(spec[g])
+
+    def grads(loss):
+        out = {}
+        for nm in terms:
+            f = lambda p, nm=nm: loss.evaluate(p, batch)[1][nm]
+            if case["path"] == "jit":
+                f = jax.jit(f)
+            g = jax.grad(f)(params)
+            out[nm] = {"nn": core.qlist(np.asarray(g.nn_params.coef).reshape(-1)),
+                       "a": core.qlist(np.asarray(g.eq_params["a"]).reshape(-1)),
+                       "b": core.qlist(np.asarray(g.eq_params["b"]).reshape(-1))}
+        return out
+
+    try:
+        ref = grads(build(DK.from_str(params=params, dyn_loss="both", initial_condition="both", observations="both")))
+    except Exception as e:
+        return {"pbatch": [{"label": "all_true", "error": core.err_kind(e), "msg": str(e)[:200]}], "ref": None}
+    results = []
+    for label, spec in PB_SPECS:
+        try:
+            if spec is None:
+                dk = None
+            elif all(isinstance(v, str) for v in spec.values()):
+                dk = DK.from_str(params=params, **spec)
+            else:
+                dk = DK(params=params, **{k: tree(v) for k, v in spec.items()})
+            g = grads(build(dk))
+        except Exception as e:
+            results.append({"label": label, "error": core.err_kind(e), "msg": str(e)[:200]})
+            continue
+        results.append({"label": label, "grads": g,
+                        "selects": {nm: [selects(None if spec is None else spec[nm], gi) for gi in range(3)] for nm in terms}})
+    return {"pbatch": results, "ref": ref}
+
+
+def _judge_pbatch(case, obs):
+    if obs["ref"] is None:
+        return {"status": "violation", "clause": "valid-specification-rejected", "where": obs["pbatch"][0]}
+    for r in obs["pbatch"]:
+        if "error" in r:
+            return {"status": "violation", "clause": "valid-specification-rejected", "where": r}
+        for nm, sel in r["selects"].items():
+            for gi, g in enumerate(("nn", "a", "b")):
+                got, full = r["grads"][nm][g], obs["ref"][nm][g]
+                if not sel[gi] and any(x != "0" for x in got):
+                    return {"status": "violation", "clause": "unselected-pair-contributes-nonzero",
+                            "where": {"spec": r["label"], "term": nm, "group": g, "gradient": got, "flavour": "parameter batch"}}
+                if sel[gi] and got != full:
+                    return {"status": "violation", "clause": "selected-pair-gradient-differs-from-the-term-gradient",
+                            "where": {"spec": r["label"], "term": nm, "group": g, "gradient": got, "all_true": full}}
+    return {"status": "ok", "clause": None}
 
 
 
@@ -871,6 +994,8 @@ def run_impl(case):
 
     if case.get("singular"):
         return _run_singular(case)
+    if case.get("pbatch_probe"):
+        return _run_pbatch(case)
     pr = _build(case)
     params, batch = pr.params, pr.batch
     leaves, treedef = jax.tree_util.tree_flatten(params)
@@ -1129,7 +1254,7 @@ def _lean_obs(o):
 
 
 def lean_request(case, obs):
-    if case.get("singular"):
+    if case.get("singular") or case.get("pbatch_probe"):
         return None
     st = _setup(obs)
     items = [_lean_obs(o) for o in obs["obs"]]
@@ -1142,6 +1267,8 @@ def lean_request(case, obs):
 def judge(case, obs, answers):
     if case.get("singular"):
         return _judge_singular(case, obs)
+    if case.get("pbatch_probe"):
+        return _judge_pbatch(case, obs)
     # harness-level sanity of the set-up (two independent exact references, isolation of per-unknown terms)
     if obs.get("ref_poly") and obs["ref_poly"]["grads"] != obs["ref_stencil"]:
         return {"status": "disagree", "clause": "exact-references-differ (float inexactness or degree > 6?)"}
@@ -1170,6 +1297,9 @@ def judge(case, obs, answers):
 def nontrivial(case, obs):
     if case.get("singular"):
         return all("error" not in r for r in obs["singular"])
+    if case.get("pbatch_probe"):
+        return obs["ref"] is not None and all(any(x != "0" for x in obs["ref"][nm][g])
+                                              for nm in ("dyn_loss", "initial_condition") for g in ("nn", "a"))
     # every (term, group of its view) all-true gradient is non-zero ...
     for k, gm in enumerate(obs["gmaps"]):
         for g, pos in enumerate(gm):
@@ -1184,6 +1314,9 @@ def nontrivial(case, obs):
 
 
 def tags(case, obs):
+    if case.get("pbatch_probe"):
+        return [f"kind={case['kind']}", "flavour=parameter_batch(routing of every term under per-sample parameters)",
+                "path=" + case["path"]]
     if case.get("singular"):
         return [f"kind={case['kind']}", "flavour=singular(non-finite derivative of an unselected pair)",
                 "path=" + case["path"]]
